@@ -8,6 +8,7 @@
 -/
 import PrologVerif.Proofs.LexerSpec
 import PrologVerif.Proofs.ReadBack
+import PrologVerif.Proofs.CanonRoundtrip
 namespace PrologVerif.C06
 open PrologVerif PrologVerif.Lexer PrologVerif.Write
 
@@ -198,12 +199,68 @@ example : (⟨true, ['1'], ['5'], some (true, ['0', '7'])⟩ : GText).WF := by
   to a stream, read back with the same operator table and flag, compare) and by model/implementation
   agreement of the written text and of the term read back. -/
 
-/-- P1 (open): `write_canonical` text of every finite term reads back to the same term up to variable
-    renaming, under every operator table.  `e` supplies the float texts and variable names. -/
-def C06_canonical_roundtrip_statement : Prop :=
-  ∀ (e : Env) (ops : Ops.Table) (dq : Read.DoubleQuotes) (t : Term),
-    (∀ c, e.cfg.conv c = c) →
-    Read.readTerm e.cfg ops dq (writeCanonical e ops t ++ [' ', '.']) = .ok t.canon
+/-- P1: `write_canonical(T)` followed by ` .` is read back by `read_term` as `T` with its variables
+    renamed by first occurrence — for EVERY finite term `T` (atoms of arbitrary text incl. operators
+    as atoms and functors, `[]`, `{}`, negative numbers, nested compounds of any arity), EVERY operator
+    table `ops` (the reader consults it at `prefix`, `arg`, `term0Atom`, `infix`) and every
+    double_quotes flag.  Hypotheses: `T` is well formed (compounds have arguments, no stream handles),
+    its integers are 64-bit, and the two parameters of the writer model behave: variable names are
+    distinct `_`-tokens, and for the floats of `T` (`P`) `FormatFloat` returns a text of its grammar
+    (`G`) that `float()` reads back to the same bits (`EnvOK`: the library round-trip law, checked per
+    case by c06.numbers / c06.terms). -/
+theorem C06_canonical_roundtrip (e : Env) (G : UInt64 → GText) (P : UInt64 → Bool) (he : EnvOK e G P)
+    (ops : Ops.Table) (dq : Read.DoubleQuotes) (t : Term) (hw : wfTerm t = true) (hn : numsOK P t = true) :
+    Read.readTerm e.cfg ops dq (writeCanonical e ops t ++ [' ', '.']) = .ok t.canon :=
+  readTerm_writeCanonical e G P he ops dq t hw hn
+
+/-- ... and the text is what the lexer turns into the token sequence `ctoks` -/
+theorem C06_canonical_tokens (e : Env) (G : UInt64 → GText) (P : UInt64 → Bool) (he : EnvOK e G P)
+    (ops : Ops.Table) (t : Term) (hw : wfTerm t = true) (hn : numsOK P t = true) :
+    (tokens e.cfg ((writeCanonical e ops t ++ [' ', '.']).length + 1)
+      (Lexer.ofList (writeCanonical e ops t ++ [' ', '.']))).1 = ctoks e G t ++ [⟨.end_, ['.']⟩] := by
+  rw [writeCanonical_eq e ops t hw]
+  have hseq : LexSeq e.cfg (canonText e t ++ [' ', '.']) (ctoks e G t ++ [⟨.end_, ['.']⟩]) [] :=
+    LexSeq.append e.cfg (y := [' ', '.'])
+      (by simpa using lexSeq_term e G P he t [' ', '.'] hw hn (HeadIs.cons (.inl rfl)))
+      (LexSeq.single e.cfg (lexTok_end e.cfg he.conv))
+  exact tokens_all e.cfg hseq _ (by have := hseq.length_le; omega)
+
+/-- an environment meeting `EnvOK`: variables `_a`, `_aa`, …; the float 1.5 with its 'g' text -/
+def exEnv : Env := ⟨Cfg.ascii, fun _ => ['1', '.', '5'], fun v => '_' :: List.replicate (v + 1) 'a'⟩
+def exG : UInt64 → GText := fun _ => ⟨false, ['1'], ['5'], none⟩
+def exP : UInt64 → Bool := fun b => b == 0x3FF8000000000000
+
+theorem exEnv_ok : EnvOK exEnv exG exP where
+  conv := fun _ => rfl
+  varShape := fun v => ⟨⟨List.replicate (v + 1) 'a', rfl, by
+    intro x hx
+    rw [List.mem_replicate] at hx
+    rw [hx.2]; rfl⟩, by simp [exEnv]⟩
+  varInj := by
+    intro v w h
+    have := congrArg List.length h
+    simp [exEnv] at this
+    exact this
+  fltWF := by
+    intro b _
+    refine ⟨by simp [exG], ?_, ?_, by simp [exG]⟩
+    · intro d hd; simp [exG] at hd; subst hd; exact ⟨1, by decide, rfl⟩
+    · intro d hd; simp [exG] at hd; subst hd; exact ⟨5, by decide, rfl⟩
+  fltText := fun _ _ => rfl
+  fltLaw := by
+    intro b hb
+    have hb' : b = 0x3FF8000000000000 := by simpa [exP] using hb
+    subst hb'
+    decide +kernel
+
+-- non-vacuity: f('hello world', -(1), - 1, 1.5, X, [], X, '[]'(a)) under the default table
+example :
+    let t : Term := .app "f" (.cons (.atom "hello world") (.cons (.app "-" (.cons (.int 1) .nil))
+      (.cons (.int (-1)) (.cons (.flt 0x3FF8000000000000) (.cons (.var 0) (.cons (.atom "[]")
+      (.cons (.var 0) (.cons (.app "[]" (.cons (.atom "-") .nil)) .nil))))))))
+    wfTerm t = true ∧ numsOK exP t = true ∧
+    writeCanonical exEnv Ops.defaultTable t = "f('hello world',-(1),-1,1.5,_a,[],_a,[](-))".toList := by
+  decide +kernel
 
 /-- P2 (open): the same for `writeq` with operators. -/
 def C06_op_roundtrip_statement : Prop :=
